@@ -812,7 +812,8 @@ def urlencode_fn(
     if fmt == "PATH":
         return urllib.parse.quote(url, safe="")
     elif fmt == "QUERY":
-        return urllib.parse.quote_plus(url)
+        # PHP urlencode() leaves only alphanumerics and -_. alone
+        return urllib.parse.quote_plus(url).replace("~", "%7E")
     # All else in WIKI encoding
     return wikiurlencode(url)
 
@@ -820,7 +821,8 @@ def urlencode_fn(
 def wikiurlencode(url: str) -> str:
     assert isinstance(url, str)
     url = re.sub(r"\s+", "_", url)
-    return urllib.parse.quote(url, safe="/:")
+    # MediaWiki's wfUrlencode() keeps ;@$!*(),/~: as they are
+    return urllib.parse.quote(url, safe=";@$!*(),/~:")
 
 
 def anchorencode_fn(
